@@ -1,8 +1,11 @@
 #!/bin/sh
-# regenerate Makefile from _CoqProject + all .v files, then make the given targets (serialised by a lock)
+# Build the given targets (full .vo). Each invocation uses a private Makefile so that
+# concurrent builds by different checks do not clobber each other's generated files.
 cd "$(dirname "$0")"
-exec 9>.mk.lock
-flock 9
-{ cat _CoqProject; find theories -name '*.v' | sort; } > _CoqProject.files
-coq_makefile -f _CoqProject.files -o Makefile >/dev/null 2>&1
-if [ $# -eq 0 ]; then exec make -k -j16; else exec make -j16 "$@"; fi
+mf="Makefile.$$"
+trap 'rm -f "$mf" "$mf.conf" ".$mf.d" "_CoqProject.files.$$"' EXIT INT TERM
+{ cat _CoqProject; find theories -name '*.v' | sort; } > "_CoqProject.files.$$"
+coq_makefile -f "_CoqProject.files.$$" -o "$mf" >/dev/null 2>&1
+if [ $# -eq 0 ]; then make -f "$mf" -k -j16; else make -f "$mf" -j16 "$@"; fi
+rc=$?
+exit $rc
